@@ -24,10 +24,11 @@ replayed on a fresh Session and fresh SQLite file.  After *every* operation:
 The pre-state that (d) quotes ("present", "not expired") is read from the
 Session before the operation; nothing is predicted from hand-written SQL.
 
-Finding on the unchanged tree: a primary-key switch that was flushed, then
-``expunge(obj)``, then ``rollback()`` puts the *detached* object back into
-``Session.identity_map`` (`_restore_snapshot` re-keys every state in
-`_key_switches` without checking that it is still attached).
+Defect this check found on the original tree (fixed in /repo by d63795a): a
+primary-key switch that was flushed, then ``expunge(obj)``, then ``rollback()``
+put the *detached* object back into ``Session.identity_map``
+(`_restore_snapshot` re-keyed every state in `_key_switches` without checking
+that it was still attached).
 
 Session.delete() of an object already in the deleted state and
 make_transient_to_detached() / add() of an object whose row does not exist are
